@@ -22,7 +22,10 @@ def load_known():
 
 def norm_msg(msg):
     """Normalise a panic / error message: digits and quoted payloads are not part of the mechanism."""
-    m = re.sub(r'"[^"]*"', '"_"', msg)
+    # `unwrap()` on an Err carrying a string: the payload is input-dependent, the mechanism is not
+    m = msg.split('"', 1)[0] + ('"_"' if '"' in msg else "")
+    # Err payloads that are structs (FromUtf8Error { bytes: [..] }, ParseIntError { kind: .. }): keep the type name only
+    m = re.sub(r"(Err` value: \w+) \{.*$", r"\1", m)
     m = re.sub(r"'[^']*'", "'_'", m)
     m = re.sub(r"\d+", "N", m)
     m = re.sub(r"\s+", "_", m.strip())
@@ -49,7 +52,10 @@ def crash_sig(prop, entry, obs):
     if obs.outcome == "panic":
         msg = obs.panic_msg
         kind = "overflow" if ("overflow" in msg and "attempt to" in msg) else "panic"
-        return "%s:%s:%s:%s:%s" % (prop, kind, entry, repo_rel(obs.panic_file), norm_msg(msg))
+        f, _, func = obs.panic_file.partition("|")
+        func = re.sub(r"\{\{closure\}\}", "closure", func).replace(" ", "")
+        where = func if func and func != "?" else "entry=" + entry
+        return "%s:%s:%s:%s:%s" % (prop, kind, repo_rel(f), where, norm_msg(msg))
     if obs.outcome == "died":
         st = obs.info.get("stderr", "")
         what = "stack-overflow" if "overflowed its stack" in st else ("alloc-failure" if "memory allocation" in st else "signal")
